@@ -107,6 +107,23 @@ def check_sdl(ctx: Ctx, job):
                 ctx.fail("C08:altered_by_load", job, f"the dict taken at position {p} was altered by loading it and iterating (load #{rep+1}): {sdl_ko._diff_sd(canon(sd), image[p])}")
                 return
         ctx.case("ko_c08_sdl", [cfg, p], cfg["W"] > 0 and 0 < p)
+        with vsched.Session(seed + 5) as s:
+            torch.manual_seed(100)
+            l3 = sdl.build(cfg)
+            l3.load_state_dict(sd)
+            try:
+                s.begin_op()
+                iter(l3)
+                l3.load_state_dict(sd)
+                cont3 = C01._consume(l3, len(stream) - p, s)
+            except Exception as e:
+                cont3 = [("error", type(e).__name__)]
+            del l3
+            gc.collect()
+        if cont3 != conts[0] and cfg.get("sampler") not in ("shuffle",):
+            d = C01._first_diff(cont3, conts[0])
+            ctx.fail("C08:reload_same_object_differs", job, f"load; iter(); load (same dict, position {p}); iterate: +{d}: {cont3[d:d+3]} vs {conts[0][d:d+3]} when loaded into a fresh loader")
+            return
         if conts[0] != conts[1]:
             d = C01._first_diff(conts[0], conts[1])
             ctx.fail("C08:second_load_differs", job, f"loading the same dict (position {p}) twice gives different continuations at +{d}: {conts[0][d:d+3]} vs {conts[1][d:d+3]}")
@@ -234,6 +251,24 @@ def check_nodes(ctx: Ctx, job):
                     ctx.fail("C08:altered_by_load", job, f"dict taken at position {p} altered by load #{rep+1} + iteration: {sdl_ko._diff_sd(canon(sd), image[p])}")
                     return
             ctx.case("ko_c08_nodes", [desc, use_loader, p], 0 < p < len(out) - 1)
+            if use_loader:
+                # the same dict loaded twice into the SAME loader, the first time without consuming anything
+                obj3, node3 = fresh()
+                obj3.load_state_dict(sd)
+                s.begin_op()
+                try:
+                    iter(obj3)
+                    obj3.load_state_dict(sd)
+                    cont3 = drive(obj3)
+                except vsched.VHang as e:
+                    cont3 = [("hang", str(e))]
+                except Exception as e:
+                    cont3 = [("error", type(e).__name__)]
+                nc.shutdown(node3)
+                if cont3 != conts[0]:
+                    d = C01._first_diff(cont3, conts[0])
+                    ctx.fail("C08:reload_same_object_differs", job, f"load; iter(); load (same dict, position {p}); iterate: +{d}: {cont3[d:d+3]} vs {conts[0][d:d+3]} when loaded into a fresh loader")
+                    return
             if conts[0] != conts[1]:
                 d = C01._first_diff(conts[0], conts[1])
                 ctx.fail("C08:second_load_differs", job, f"same dict (position {p}) loaded twice: +{d}: {conts[0][d:d+3]} vs {conts[1][d:d+3]}")
